@@ -311,7 +311,15 @@ class PrintrunWriter(BaseWriter):
         """Wait for an acknowledgment from the device."""
 
         self._logger.info("Wait for acknowledgment")
-        self._ack_event.wait()
+
+        # Do not wait forever if the connection was lost: once the peer
+        # is gone nobody will acknowledge the statement.
+
+        while not self._ack_event.wait(POLLING_INTERVAL):
+            printer = self._device.printer if self._device else None
+
+            if printer is None or not printer.is_connected:
+                raise DeviceConnectionError("Connection lost")
 
     def _on_device_online(self) -> None:
         """Callback to handle device online event."""
